@@ -75,7 +75,7 @@ def stepDeterminism (op : String) (args : List String) : Option String :=
       else "unknown-site"
     | none => "unknown-site"
   | "c19det", [seed, cfg, r, _keep] =>
-    some (if c19IsNat seed && c19IsNat cfg && c19IsNat r then "ok same" else "bad-op")
+    some (if c19IsNat (seed.drop 1).toString && seed.startsWith "s" && c19IsNat cfg && c19IsNat r then "ok same" else "bad-op")
   | "c19dir", [cfg, r, _dir] =>
     some (if c19IsNat cfg && c19IsNat r then "ok same" else "bad-op")
   | "c19ord", _ => some "bad-op"
